@@ -80,10 +80,15 @@ impl AdtCollector {
 			}
 			for did in todo {
 				let krate = tcx.crate_name(did.krate).to_string();
-				if !ADT_CRATES.contains(&krate.as_str()) {
+				let adt = tcx.adt_def(did);
+				// fieldless enums of the standard library (io::ErrorKind, cmp::Ordering, ...) are kept too:
+				// `matches!`/`match` on them lowers to a discriminant switch whose values need names
+				let plain_std_enum = matches!(krate.as_str(), "std" | "core" | "alloc")
+					&& adt.is_enum()
+					&& adt.variants().iter().all(|v| v.fields.is_empty());
+				if !ADT_CRATES.contains(&krate.as_str()) && !plain_std_enum {
 					continue;
 				}
-				let adt = tcx.adt_def(did);
 				let mut o = J::obj();
 				o.put("path", J::s(path(tcx, did)));
 				o.put("crate", J::s(krate));
